@@ -72,6 +72,13 @@ add("size_TC_u8", TC, sim_alloc(TC, cfg(size_t="std::uint8_t")), (1, 3, 0), big=
 add("twin_TC", TC, sim_alloc(TC, cfg()), NSETS[0], packs=("twin", "core", "c17"))
 add("twin_TC_std", "sim::elem_tc<1>", "std::allocator<sim::elem_tc<1> >", NSETS[1], packs=("twin", "c17"))
 add("twin_TC_111", TC, sim_alloc(TC, cfg(1, 1, 1)), NSETS[2], packs=("twin", "alloc"))
+add("twin_NM_111", NM, sim_alloc(NM, cfg(1, 1, 1)), NSETS[2], packs=("alloc",))
+add("twin_TC_u16", TC, sim_alloc(TC, cfg(size_t="std::uint16_t")), NSETS[3], packs=("twin",))
+add("twin_NM_u16", NM, sim_alloc(NM, cfg(size_t="std::uint16_t")), NSETS[3], packs=("core",))
+
+# (trivially copyable universe, its non-trivial twin): identical N sets and allocator configuration
+TWINS = [("twin_TC", "core_NM"), ("twin_TC_std", "std_NM"), ("twin_TC_111", "twin_NM_111"),
+         ("twin_TC_u16", "twin_NM_u16")]
 
 
 def by_pack(*packs):
